@@ -91,6 +91,8 @@ struct World {
   size_t stale_pass_data = 0; // nodes that still carry RA pass data after a finalize() (the pass arena has been reset by then)
   size_t ra_labels = 0;      // labels created inside finalize() (by the register allocator / serialisation), cumulative
   std::vector<void*> kept;   // heap perturbation blocks kept alive until the end of the case
+  size_t detached_compared = 0;   // detached probe: member comparisons / differing members (per step)
+  std::string detached_diffs;
 };
 
 static BaseEmitter* make_emitter(World& w) {
@@ -421,23 +423,8 @@ static const uint8_t* subobject(World& w, const char* cls) {
 
 static void init_holder(World& w);
 
-static std::string probe(World& w) {
-  World f;
-  f.is_x86 = w.is_x86; f.kind = w.kind;
-  f.is_32 = w.code->arch() == Arch::kX86;
-  f.base = w.code->base_address();
-  f.code = new CodeHolder();
-  init_holder(f);
-  f.em = make_emitter(f);
-  // same configuration: loggers, diagnostics (all of it is user configuration that persists by contract)
-  if (w.code->logger()) f.code->set_logger(w.log1);
-  if (w.em->has_own_logger()) f.em->set_logger(w.log2);
-  f.em->add_diagnostic_options(w.em->diagnostic_options());
-  f.code->attach(f.em);
-  bool extra_attached = w.extra && w.extra->code() == w.code;
-  std::ostringstream o;
-  size_t compared = 0;
-  std::string diffs;
+// member-by-member comparison of the objects of w with those of f (a null sub-object of either world is skipped)
+static void compare_members(World& w, World& f, bool extra_attached, size_t& compared, std::string& diffs) {
   for (const ProbeMember* m = g_members; m->cls; m++) {
     const uint8_t* a = subobject(w, m->cls);
     const uint8_t* b = subobject(f, m->cls);
@@ -489,10 +476,61 @@ static std::string probe(World& w) {
     compared++;
     if (!same) { diffs += (diffs.empty() ? "" : ","); diffs += m->cls; diffs += "::"; diffs += m->name; }
   }
+}
+
+static std::string probe(World& w) {
+  World f;
+  f.is_x86 = w.is_x86; f.kind = w.kind;
+  f.is_32 = w.code->arch() == Arch::kX86;
+  f.base = w.code->base_address();
+  f.code = new CodeHolder();
+  init_holder(f);
+  f.em = make_emitter(f);
+  // same configuration: loggers, diagnostics (all of it is user configuration that persists by contract)
+  if (w.code->logger()) f.code->set_logger(w.log1);
+  if (w.em->has_own_logger()) f.em->set_logger(w.log2);
+  f.em->add_diagnostic_options(w.em->diagnostic_options());
+  f.code->attach(f.em);
+  bool extra_attached = w.extra && w.extra->code() == w.code;
+  std::ostringstream o;
+  size_t compared = 0;
+  std::string diffs;
+  compare_members(w, f, extra_attached, compared, diffs);
   o << compared << " " << (diffs.empty() ? "-" : diffs);
   delete f.em;
   delete f.code;
   return o.str();
+}
+
+// ---- detached probe: between a holder reset (or a detach) and the following init / attach, the emitter is compared with a
+// NEVER-ATTACHED emitter of the same kind and configuration, and (after a reset) the holder with a NEVER-INITIALISED holder. This is
+// the state in which the values written by the reset functions themselves are visible (init / on_attach overwrite several of them).
+static void detached_probe(World& w, bool holder_too, const char* step, size_t index) {
+  World f;
+  f.is_x86 = w.is_x86; f.kind = w.kind;
+  uint8_t* smem = nullptr;
+  if (holder_too) {
+    if (w.static_bytes) {
+      smem = static_cast<uint8_t*>(malloc(w.static_bytes)); memset(smem, 0xA5, w.static_bytes);
+      f.code = new CodeHolder(Span<uint8_t>(smem, w.static_bytes));
+    }
+    else f.code = new CodeHolder();
+  }
+  f.em = make_emitter(f);
+  if (w.em->has_own_logger()) f.em->set_logger(w.log2);
+  f.em->add_diagnostic_options(w.em->diagnostic_options());
+  std::string diffs;
+  CodeHolder* wc = w.code;
+  if (!holder_too) w.code = nullptr;
+  compare_members(w, f, false, w.detached_compared, diffs);
+  w.code = wc;
+  if (!diffs.empty()) {
+    std::ostringstream o; o << step << "@" << index << ":" << diffs;
+    w.detached_diffs += (w.detached_diffs.empty() ? "" : ";") + o.str();
+  }
+  delete f.em;
+  delete f.code;
+  free(smem);
 }
 
 static uint64_t xs(uint64_t& s) { s ^= s << 13; s ^= s >> 7; s ^= s << 17; return s; }
@@ -544,11 +582,12 @@ static void run_case(const std::vector<std::string>& tok) {
     if (st.compare(0, 2, "G:") == 0) run_prog(w, st.substr(2));
     else if (st == "RS" || st == "RH") {
       w.code->reset(st == "RS" ? ResetPolicy::kSoft : ResetPolicy::kHard);
+      detached_probe(w, true, st.c_str(), i - 5);
       init_holder(w);
       w.code->attach(w.em);
     }
     else if (st == "RI") { w.code->reinit(); holder_fresh_names(w); }
-    else if (st == "DA") { w.code->detach(w.em); w.code->attach(w.em); }
+    else if (st == "DA") { w.code->detach(w.em); detached_probe(w, false, "DA", i - 5); w.code->attach(w.em); }
     else if (st == "NE") { delete w.em; w.em = make_emitter(w); w.code->attach(w.em); }
     else if (st == "NH" || st == "NHa") {
       CodeHolder* old = w.code;
@@ -587,6 +626,7 @@ static void run_case(const std::vector<std::string>& tok) {
   }
   std::string rec = dump(w);
   printf("S %s %s\n", id.c_str(), trace.c_str());
+  printf("D %s %zu %s\n", id.c_str(), w.detached_compared, w.detached_diffs.empty() ? "-" : w.detached_diffs.c_str());
   printf("R %s %s\n", id.c_str(), rec.c_str());
 
   // fresh objects, canonical configuration: dynamic arena, no logger, no validation, no history
